@@ -855,7 +855,8 @@ class SymEval:
                         # a module-level constant spelled as arithmetic on literals (2**31 - 1): the same term as the expression in place
                         return self.eval(st.value, Frame(f"{frame.module}.<module>", frame.module, None, {}))
                     def simple(v):
-                        return isinstance(v, (ast.Name, ast.Attribute, ast.Constant)) or (
+                        # (a module-level lambda closes over module names only: it is the function it spells out)
+                        return isinstance(v, (ast.Name, ast.Attribute, ast.Constant, ast.Lambda)) or (
                             isinstance(v, ast.UnaryOp) and isinstance(v.op, ast.USub) and isinstance(v.operand, ast.Constant)) or (
                             isinstance(v, (ast.Tuple, ast.List)) and len(v.elts) <= 8 and all(simple(x) for x in v.elts))
                     if isinstance(st.value, ast.Call) and (_dotted(st.value.func) or "").endswith("partial") and st.value.args and all(simple(a_) for a_ in st.value.args) \
@@ -2450,6 +2451,14 @@ def _never_mutated(tree: ast.Module, name: str) -> bool:
 def _fuse_source(it: Term):
     """Iterating over `[g(x) for x in A if c(x)]` is iterating over A under c(x) with the loop variable bound to g(x) (map fusion).
     Returns (A, g-template, the inner element term or None, conditions) or None."""
+    if it[0] == "call" and not it[2] and not it[3] and isinstance(it[1], tuple) and it[1][0] == "attr" and it[1][2] in ("items", "values", "keys") \
+            and it[1][1][0] == "comp" and it[1][1][1] == "dict" and len(it[1][1][3]) == 1 and it[1][1][2][0] == "tuple" and len(it[1][1][2][1]) == 2:
+        # {k(x): v(x) for x in A if c(x)}.items() / .values() / .keys(): the same, with the loop variable bound to (k, v) / v / k (the keys of a
+        # table filled once per element are taken to be distinct, as for the table itself)
+        d = it[1][1]
+        k_, v_ = d[2][1]
+        tmpl = {"items": ("tuple", (k_, v_)), "values": v_, "keys": k_}[it[1][2]]
+        it = ("comp", "list", tmpl, d[3], d[4])
     if not (it[0] == "comp" and it[1] in ("list", "gen") and len(it[3]) == 1):
         return None
     inner_it = it[3][0][1]
@@ -2534,7 +2543,7 @@ def _is_simple_property(fn) -> bool:
     for st in body[:-1]:
         if isinstance(st, ast.FunctionDef):
             continue
-        if isinstance(st, ast.Assign) and all(isinstance(t, ast.Name) for t in st.targets):
+        if isinstance(st, ast.Assign) and all(isinstance(t, ast.Name) or (isinstance(t, ast.Tuple) and all(isinstance(x, ast.Name) for x in t.elts)) for t in st.targets):
             continue
         if isinstance(st, ast.AnnAssign) and isinstance(st.target, ast.Name):
             continue
